@@ -1103,6 +1103,16 @@ pub(crate) fn get_merged_string_output_address<'data, P: Platform>(
         input_offset = input_offset.wrapping_add(addend as u64);
     }
 
+    // A reference past the end of the section can't be resolved to a string. Reject it here,
+    // since the search below walks backwards from the offset it's given.
+    let section_size = object.section_size(object.section(section_index)?)?;
+    if input_offset > section_size {
+        crate::bail!(
+            "Reference to offset {input_offset:#x} of a string-merge section that is \
+             {section_size:#x} bytes long"
+        );
+    }
+
     let part_id = section_part_ids[input_section_id.as_usize()];
     let section_id = part_id.output_section_id();
     let strings_section = merged_strings.get(section_id);
